@@ -272,6 +272,17 @@ def run(ctx):
         arrs = [mk_arrays(rng, len(s), len(cats)) for s in sents]
         extra = [c for c in rng.sample(inv['en'], 3) if str(c) not in {str(x) for x in cats}] if rng.random() < 0.08 else ()
         cd = rand_dict(rng, cats, list({w for s in sents for w in s}), extra)
+        if cd and rng.random() < 0.4:
+            # near misses of dictionary words: longer / shorter / differently cased forms are OTHER words and stay untouched
+            keys = list(cd)
+            for s_ in sents:
+                for j_ in range(len(s_)):
+                    if s_[j_] not in cd and rng.random() < 0.6:
+                        k_ = rng.choice(keys)
+                        v_ = rng.choice([k_ + 's', k_ + '10', k_ + k_, k_[:-1], k_.upper(), k_ + ' ', 'x' + k_])
+                        if v_ and v_ not in cd:
+                            s_[j_] = v_
+            ctx.count('words:near_misses_of_keys')
         lnv = rng.choice([None, None, -1000.0, -2.0 ** 20, -1.0, 0.0, -3.5e38 / 4])
         one_call('dup-categories' if dup else ('unknown-dict-category' if extra and any(c in cs for cs in cd.values() for c in extra) else 'well-shaped'),
                  form, form, sents, arrs, cats, cd, lnv)
